@@ -6,7 +6,7 @@
 set -u
 cd "$(dirname "$0")/.."
 ./run.sh setup || exit 2
-snap=$(mktemp /tmp/elpscheck-sweep-XXXXXX); cp bin/elpscheck "$snap"; export VERIF_BIN="$snap"
+snap=$(mktemp /tmp/elpscheck-sweep-XXXXXX); cp bin/elpscheck "$snap"; chmod +x "$snap"; export VERIF_BIN="$snap"
 ids=($(ls seeded)); negs=($(ls seeded-negative))
 for s in $(seq 0 9); do
   ( shard=(); for i in "${!ids[@]}"; do [ $((i % 10)) -eq $s ] && shard+=("${ids[$i]}"); done
